@@ -32,3 +32,36 @@ contract("AbsoluteSequence.to_relative_sequence", params={"self": "ref:AbsoluteS
              ("source_kept", f"len({M}) == entry(len({M})) and {SORTED()} and {WF_ABS()} and forall(0, len({M}), lambda j: allocated({Mj}) and not fresh({Mj}))"),
          ])},
          props=["C04", "C16", "C11"])
+
+# ---------------------------------------------------------------- equals (C17)
+P0, P1 = "callres('get_interleaved_message_pairings', 0)", "callres('get_interleaved_message_pairings', 1)"
+FIRSTk = "result[k].g_msgs[0]"
+contract("AbsoluteSequence.get_interleaved_message_pairings",
+         params={"self": "ref:AbsoluteSequence", "message_types": "list:int?", "standard_length": "int", "impute_notes": "bool"}, result="list:ref:Pairing", allocates="keep_fields", trusted=True,
+         note="the canonical content extraction used by equals (C17.d): pairings of notes and the requested signature events in onset order; validated by the bounded tier",
+         requires=[], modifies={"@lists": M},
+         ensures=[("pairings", f"forall(0, len(result), lambda k: not is_none(result[k]) and len(result[k].g_msgs) >= 1 and not is_none({FIRSTk}.message_type) and not is_none({FIRSTk}.time)"
+                               f" and implies({FIRSTk}.message_type == MessageType.NOTE_ON, len(result[k].g_msgs) == 2 and not is_none(result[k].g_msgs[1].time)))")],
+         props=["C17"])
+
+
+def AGREE(k):
+    a, b = f"{P0}[{k}]", f"{P1}[{k}]"
+    fa, fb = f"{a}.g_msgs[0]", f"{b}.g_msgs[0]"
+    return (f"(({a}.g_channel == {b}.g_channel) or ignore_channel) and {fa}.message_type == {fb}.message_type and {fa}.time == {fb}.time"
+            f" and implies({fa}.message_type == MessageType.NOTE_ON, {fa}.note == {fb}.note and {a}.g_msgs[1].time - {fa}.time == {b}.g_msgs[1].time - {fb}.time and ({fa}.velocity == {fb}.velocity or ignore_velocity))"
+            f" and implies({fa}.message_type == MessageType.TIME_SIGNATURE, {fa}.numerator == {fb}.numerator and {fa}.denominator == {fb}.denominator)"
+            f" and implies({fa}.message_type == MessageType.KEY_SIGNATURE, {fa}.key == {fb}.key)")
+
+
+contract("AbsoluteSequence.equals",
+         params={"self": "ref:AbsoluteSequence", "other": "ref:AbsoluteSequence?", "ignore_channel": "bool", "ignore_time_signature": "bool", "ignore_key_signature": "bool", "ignore_velocity": "bool"},
+         result="bool", allocates=True,
+         requires=[],
+         names_result=["implies(not is_none(other), result == abs_equals_result(self, other, ignore_channel, ignore_time_signature, ignore_key_signature, ignore_velocity))"],
+         modifies={"@lists": "[self._messages, other._messages]"},
+         ensures=[("not_a_sequence", "implies(is_none(other), not result)"),
+                  ("iff_pairings_agree", f"implies(not is_none(other), result == (len({P0}) == len({P1}) and forall(0, len({P0}), lambda k: {AGREE('k')})))")],
+         loops={"L0": dict(fingerprint="for (self_pair, other_pair) in zip(self_pairings, other_pairings)", inv=[
+             ("agree_so_far", f"forall(0, i, lambda k: {AGREE('k')})"), ("same_length", f"len({P0}) == len({P1})")])},
+         props=["C17"])
